@@ -637,6 +637,7 @@ async fn shutdown_scenario(a: &Value) -> Value {
     let t2 = token.clone();
     let svc = tower::ServiceExt::boxed_clone(tower::service_fn(move |r: Request<Bytes>| { let _held = t2.clone(); async move {
         if r.body().starts_with(b"slow") { tokio::time::sleep(Duration::from_millis(8000)).await; }
+        if r.body().starts_with(b"busy") { std::thread::sleep(Duration::from_millis(1200)); }      // a stretch of work that does not yield
         let _ = &_held;
         Ok::<_, std::convert::Infallible>(Response::new(r.into_body()))
     } }));
@@ -665,12 +666,16 @@ async fn shutdown_scenario(a: &Value) -> Value {
     // (calls pending ON the node hold a handle of it: only in the explicit variant, where the handle outlives the shutdown anyway)
     let pending_dial = tokio::spawn(async move { if !explicit { drop(s1); return "not made"; } let r = tokio::time::timeout(Duration::from_secs(7), s1.connect(silent_addr)).await; drop(s1); match r { Err(_) => "hung", Ok(Err(_)) => "error", Ok(Ok(_)) => "ok" } });
     let pending_out = tokio::spawn(async move { if !explicit { drop(s2); return "not made"; } let r = tokio::time::timeout(Duration::from_secs(7), s2.rpc(p1id, Request::new(Bytes::from_static(b"slow-out")))).await; drop(s2); match r { Err(_) => "hung", Ok(Err(_)) => "error", Ok(Ok(_)) => "ok" } });
+    let (s4, sid2) = (p1.clone(), subject.peer_id());
+    let busy_in = tokio::spawn(async move { tokio::time::sleep(Duration::from_millis(330)).await; let r = tokio::time::timeout(Duration::from_secs(7), s4.rpc(sid2, Request::new(Bytes::from_static(b"busy-in")))).await; match r { Err(_) => "hung", Ok(Err(_)) => "error", Ok(Ok(_)) => "ok" } });
     let pending_in = tokio::spawn(async move { let r = tokio::time::timeout(Duration::from_secs(7), s3.rpc(sid, Request::new(Bytes::from_static(b"slow-in")))).await; match r { Err(_) => "hung", Ok(Err(_)) => "error", Ok(Ok(_)) => "ok" } });
     tokio::time::sleep(Duration::from_millis(400)).await;
     let clones_before = Arc::strong_count(&token);
+    let mut clones_at_return: Option<usize> = None;
     let t0 = std::time::Instant::now();
     let (shutdown_result, after_network): (Option<bool>, Option<anemo::Network>) = if explicit {
         let r = tokio::time::timeout(Duration::from_secs(6), subject.shutdown()).await;
+        clones_at_return = Some(Arc::strong_count(&token));
         (Some(matches!(r, Ok(Ok(())))), Some(subject))
     } else { drop(subject); (None, None) };
     // the three pending calls hold clones of the handle: in the "drop" variant the network goes away when they are done with it
@@ -705,7 +710,7 @@ async fn shutdown_scenario(a: &Value) -> Value {
     }
     let weak_upgrades = weak.upgrade().is_some();
     json!({"variant": if explicit { "explicit" } else { "drop" }, "shutdown_ok": shutdown_result, "down_after_ms": down_ms, "pending_dial": pend.0, "pending_outbound_rpc": pend.1, "pending_inbound_rpc_seen_by_remote": pend.2,
-           "subscriber": {"snapshot": snapshot.len(), "events": events, "stream_ended": stream_ended}, "rebind_after_ms": rebind_ms, "service_clones_before": clones_before, "service_clones_after": clones_after,
+           "subscriber": {"snapshot": snapshot.len(), "events": events, "stream_ended": stream_ended}, "rebind_after_ms": rebind_ms, "service_clones_before": clones_before, "service_clones_when_shutdown_returned": clones_at_return, "service_clones_after": clones_after, "busy_inbound_rpc_seen_by_remote": tokio::time::timeout(Duration::from_secs(8), busy_in).await.ok().and_then(|r| r.ok()),
            "remote_peers_saw_disconnect": remote_saw, "weak_reference_upgrades": weak_upgrades, "calls_after_shutdown": after})
 }
 
